@@ -19,3 +19,5 @@ Lemma leaffull_refuted_l : refutes F_LEAFFULL w_leaffull.
 Proof. vm_compute. split; reflexivity. Qed.
 Lemma sepdup_refuted_l : refutes F_SEPDUP w_sepdup.
 Proof. vm_compute. split; reflexivity. Qed.
+Lemma intfull_refuted_l : refutes F_INTFULL w_intfull.
+Proof. vm_compute. split; reflexivity. Qed.
